@@ -201,7 +201,7 @@ def keyAuthority (scheme host : Str) : Str :=
   else keyHost host
 
 theorem key_form (s h p q : Str) :
-    makeURLKeyOf s h p q [] = s ++ ((str% "://") ++ (keyAuthority s h ++ (keyPath s p ++
+    makeURLKeyOf s h p q [] = s ++ ((str% "://") ++ (keyAuthority s h ++ (keyPath s (rootedPath h p) ++
       (if q.isEmpty then [] else '?' :: normalizePercentEncoding q)))) := by
   unfold makeURLKeyOf keyAuthority effPort keyHost keyPath
   rcases hsp : splitHostPort h with ⟨h', p0⟩
@@ -233,7 +233,8 @@ def NoPortSuffix (x : Str) : Prop := ∀ a d, x = a ++ ':' :: d → d.all isDigi
 structure WFUrl (s h p q : Str) : Prop where
   scheme : s = (str% "http") ∨ s = (str% "https")
   hostNoSlash : '/' ∉ h
-  pathAbs : p = [] ∨ ∃ r, p = '/' :: r
+  /-- the path is rooted, or there is a host to root it under (then the key writes the slash) -/
+  pathAbs : h ≠ [] ∨ p = [] ∨ ∃ r, p = '/' :: r
   pathNoQ : '?' ∉ p
   hostNoPort : NoPortSuffix (keyHost h)
 
@@ -349,13 +350,49 @@ theorem removeDotSegments_form (r : Str) (hq : '?' ∉ r) :
       · exact hq h'
     · subst h; cases hc
 
-theorem keyPath_form (s h p q : Str) (w : WFUrl s h p q) : ∃ r, keyPath s p = '/' :: r ∧ '?' ∉ r := by
-  rcases w.pathAbs with hp | ⟨r, hp⟩
-  · subst hp
+theorem rootedPath_form (h p : Str) (hw : h ≠ [] ∨ p = [] ∨ ∃ r, p = '/' :: r) :
+    rootedPath h p = [] ∨ ∃ r, rootedPath h p = '/' :: r := by
+  unfold rootedPath
+  cases h with
+  | nil =>
+    rcases hw with hw | hw | ⟨r, hw⟩
+    · exact absurd rfl hw
+    · subst hw; exact Or.inl rfl
+    · subst hw; exact Or.inr ⟨r, rfl⟩
+  | cons a t =>
+    cases p with
+    | nil => exact Or.inl rfl
+    | cons c r =>
+      simp only
+      by_cases hc : c = '/'
+      · subst hc; simp
+      · simp [hc]
+
+theorem rootedPath_no_qmark (h p : Str) (hq : '?' ∉ p) : '?' ∉ rootedPath h p := by
+  unfold rootedPath
+  cases h with
+  | nil => exact hq
+  | cons a t =>
+    cases p with
+    | nil => exact hq
+    | cons c r =>
+      simp only
+      by_cases hc : c = '/'
+      · simp only [hc, ↓reduceIte]; rw [← hc]; exact hq
+      · simp only [hc, ↓reduceIte]
+        intro hm
+        rcases List.mem_cons.mp hm with e | e
+        · revert e; decide
+        · exact hq e
+
+theorem keyPath_form (s h p q : Str) (w : WFUrl s h p q) : ∃ r, keyPath s (rootedPath h p) = '/' :: r ∧ '?' ∉ r := by
+  have hnq := rootedPath_no_qmark h p w.pathNoQ
+  rcases rootedPath_form h p w.pathAbs with hp | ⟨r, hp⟩
+  · rw [hp]
     refine ⟨[], ?_, by simp⟩
     rcases w.scheme with hs | hs <;> subst hs <;> decide
-  · subst hp
-    have hq : '?' ∉ normalizePercentEncoding r := npe_no_qmark r (fun hm => w.pathNoQ (List.mem_cons_of_mem _ hm))
+  · rw [hp] at hnq ⊢
+    have hq : '?' ∉ normalizePercentEncoding r := npe_no_qmark r (fun hm => hnq (List.mem_cons_of_mem _ hm))
     obtain ⟨r', e, hr'⟩ := removeDotSegments_form _ hq
     refine ⟨r', ?_, hr'⟩
     unfold keyPath
@@ -400,7 +437,7 @@ theorem scheme_prefix_inj (s1 s2 x y : Str) (h1 : s1 = (str% "http") ∨ s1 = (s
 theorem key_injective (s1 h1 p1 q1 s2 h2 p2 q2 : Str) (w1 : WFUrl s1 h1 p1 q1) (w2 : WFUrl s2 h2 p2 q2)
     (e : makeURLKeyOf s1 h1 p1 q1 [] = makeURLKeyOf s2 h2 p2 q2 []) :
     s1 = s2 ∧ keyHost h1 = keyHost h2 ∧ effPort s1 h1 = effPort s2 h2 ∧
-    keyPath s1 p1 = keyPath s2 p2 ∧
+    keyPath s1 (rootedPath h1 p1) = keyPath s2 (rootedPath h2 p2) ∧
     normalizePercentEncoding q1 = normalizePercentEncoding q2 := by
   rw [key_form, key_form] at e
   obtain ⟨hs, e⟩ := scheme_prefix_inj _ _ _ _ w1.scheme w2.scheme e
@@ -430,7 +467,7 @@ theorem key_injective (s1 h1 p1 q1 s2 h2 p2 q2 : Str) (w1 : WFUrl s1 h1 p1 q1) (
     equivalent spellings share one key) -/
 theorem key_complete (s h1 p1 q1 h2 p2 q2 : Str)
     (eh : keyHost h1 = keyHost h2) (ep : effPort s h1 = effPort s h2)
-    (epath : keyPath s p1 = keyPath s p2)
+    (epath : keyPath s (rootedPath h1 p1) = keyPath s (rootedPath h2 p2))
     (eq : normalizePercentEncoding q1 = normalizePercentEncoding q2) :
     makeURLKeyOf s h1 p1 q1 [] = makeURLKeyOf s h2 p2 q2 [] := by
   rw [key_form, key_form]
@@ -639,7 +676,9 @@ theorem key_eq_spec (s h p q : Str) (hs : s = (str% "http") ∨ s = (str% "https
     rcases hs with hs | hs <;> subst hs <;> decide
   simp only [List.isEmpty_nil, Bool.not_true, Bool.false_eq_true, ↓reduceIte, hl, hd, hsch, Bool.and_true, pctNorm_eq,
     removeDots_eq]
-  generalize removeDotSegments (normalizePercentEncoding p) = P
+  have hr : Spec.rooted h p = rootedPath h p := rfl
+  rw [hr]
+  generalize removeDotSegments (normalizePercentEncoding (rootedPath h p)) = P
   by_cases hp0 : p0.isEmpty = true
   · have : p0 = [] := by simpa using hp0
     subst this
